@@ -1423,6 +1423,8 @@ func (s *State) checkASAInterfaces() error {
 				// If some ACL or crypto map is bound to this unmanaged
 				// interface, these commands must not accidently be deleted.
 				s.markNeeded(aIntf2cmd[name])
+				// Don't compare these commands with commands from Netspoc.
+				s.removeFromDevice(aIntf2cmd[name])
 
 				if !shut {
 					errlog.Warning(
@@ -1612,6 +1614,24 @@ func (s *State) markNeeded(l []*cmd) {
 			s.markNeeded(s.a.lookup[prefix][name])
 		}
 		s.markNeeded(c.sub)
+	}
+}
+
+// Remove commands bound to unmanaged interface from device config.
+// Otherwise a needed command at first position of its list would
+// prevent other commands of that list from being compared.
+func (s *State) removeFromDevice(rm []*cmd) {
+	for _, prefix := range []string{"access-group", "crypto map interface"} {
+		if l := s.a.lookup[prefix][""]; l != nil {
+			l = slices.DeleteFunc(slices.Clone(l), func(c *cmd) bool {
+				return slices.Contains(rm, c)
+			})
+			if len(l) != 0 {
+				s.a.lookup[prefix][""] = l
+			} else {
+				delete(s.a.lookup[prefix], "")
+			}
+		}
 	}
 }
 
